@@ -97,6 +97,23 @@ MUT += [
 ]
 
 
+MUT += [
+    ("M90", "penguin-socks/src/v5.rs", "            let mut addr = [0; 16];", "            let mut addr = [0; 4];\n            let _unused = [0u8; 16];", ["C18"], ["C18"]),
+    ("M91", "penguin-socks/src/v5.rs", "    let _reserved = stream\n        .read_u8()\n        .await\n        .map_err(|e| Error::ProcessSocksRequest(\"read reserved\", e))?;\n", "", ["C18"], ["C18"]),
+    ("M92", "penguin-socks/src/v5.rs", "    let address = read_address(stream).await?;\n    let port = stream\n        .read_u16()\n        .await\n        .map_err(|e| Error::ProcessSocksRequest(\"read port\", e))?;", "    let address = read_address(stream).await?;\n    let port = stream\n        .read_u16_le()\n        .await\n        .map_err(|e| Error::ProcessSocksRequest(\"read port\", e))?;", ["C18"], ["C18"]),
+    ("M93", "penguin-socks/src/v5.rs", "    if version != magics::VER_5 {\n        return Err(Error::SocksVersion(version));\n    }\n    let command", "    let command", ["C18"], ["C18"]),
+    ("M94", "penguin-socks/src/v5.rs", "    Ok((command, address, port))", "    Ok((version, address, port))", ["C18"], ["C18"]),
+]
+
+
+MUT += [
+    ("M95", "penguin-mux/src/frame.rs", "                encoded.put_u8(len_u8);\n                encoded.put_u16(*target_port);\n                encoded.extend(target_host.as_ref());\n                encoded.extend(data.as_ref());", "                encoded.put_u8(len_u8);\n                encoded.put_u16(*target_port);\n                encoded.extend(data.as_ref());\n                encoded.extend(target_host.as_ref());", ["C09", "C11"], ["C09"]),
+    ("M96", "penguin-mux/src/frame.rs", "                for data in vec {\n                    encoded.extend(data.as_ref());\n                }", "                for data in vec.iter().rev() {\n                    encoded.extend(data.as_ref());\n                }", ["C09", "C02"], ["C0"]),
+    ("M97", "penguin-mux/src/frame.rs", "    frame.extend(data);\n}", "    let at = frame.len().min(5);\n    frame.splice(at..at, data.iter().copied());\n}", ["C09", "C13", "C02"], ["C"]),
+    ("M98", "penguin-mux/src/frame.rs", "                encoded.put_u8(*bind_type as u8);\n                encoded.put_u16(*target_port);", "                encoded.put_u16(*target_port);\n                encoded.put_u8(*bind_type as u8);", ["C09", "C15"], ["C09"]),
+]
+
+
 # behaviour-preserving refactors: every listed check must stay silent
 EQUIV = [
     ("E01", "penguin-mux/src/stream.rs", "if new >= self.rwnd_threshold {", "if !(new < self.rwnd_threshold) {", ["C03"]),
